@@ -17,7 +17,7 @@ func propC12() Property {
 		Explanation: "The framing parser keeps a window (buffer) into a backing array (bigBuffer) that is re-pointed and refilled by one function. R1 (no stale view): a slice loaded from the window is never used after a call that may refill/re-point it. " +
 			"R2 (no alias escapes): window-derived slices flow only into read-only sinks (bytes.Index/IndexByte, integer scan, (*bytes.Buffer).Write, copy source, the reader's destination inside the refill function, len/cap, and back into the window field); never into a return value, another heap location, a channel or bytes.NewBuffer. " +
 			"R3 (refill preserves content): where the window is re-pointed, the old content was copied into the new window first; the read destination is buffer[len:cap]; afterwards the window is extended by exactly that read's count. " +
-			"R4 (explicit-flow non-interference): the values returned by the index-finding methods and the bounds that cut a frame do not explicitly depend on how much is buffered (len/cap of the buffers, the read count); those quantities only steer when to refill. R5: the io.Reader contract allows data together with an error (the last bytes with io.EOF); every place that gives up because the refill returned an error does so only when that same refill returned zero bytes, otherwise the delivered bytes would be dropped depending on how the stream was chunked.",
+			"R4 (explicit-flow non-interference): the values returned by the index-finding methods and the bounds that cut a frame do not explicitly depend on how much is buffered (len/cap of the buffers, the read count); those quantities only steer when to refill. R5: the io.Reader contract allows data together with an error (the last bytes with io.EOF); every place that gives up because the refill returned an error does so only when that same refill returned zero bytes, otherwise the delivered bytes would be dropped depending on how the stream was chunked. R6: in every function a reader is wrapped by at most one framing parser (a second parser on the same reader loses what the first one buffered ahead).",
 		NotDecided: "implicit flows (loop exits depend on how much is buffered — argued by the 'refill until found' loop shape, not decided), behaviour for streams with junk between messages, termination.",
 		Rules: []RuleDef{
 			{ID: "C12-R1", Desc: "no stale buffer view across a refill", Min: 5, Run: c12R1},
@@ -25,6 +25,7 @@ func propC12() Property {
 			{ID: "C12-R3", Desc: "refill preserves content", Min: 3, Run: c12R3},
 			{ID: "C12-R4", Desc: "frame indices not data-dependent on read sizes", Min: 4, Run: c12R4},
 			{ID: "C12-R5", Desc: "a read error ends the search only when no bytes were read", Min: 2, Run: c12R5},
+			{ID: "C12-R6", Desc: "one framing parser per reader", Min: 2, Run: c12R6},
 		},
 	}
 }
@@ -450,5 +451,46 @@ func c12R5(c *Ctx) {
 	}
 	if n == 0 {
 		c.Violation("", "-", "no-read-error-exit", "no function of the parser propagates the refill's error")
+	}
+}
+
+// C12-R6: one framing parser per byte stream. A parser buffers ahead; bytes it has read beyond
+// the frame it returned exist only in its buffer. Handing the same reader to a second parser
+// loses them, and how many are lost depends on how the stream was split into reads. In every
+// function, a reader value is wrapped by at most one parser constructor call.
+func c12R6(c *Ctx) {
+	p := c.P
+	pi := getParser(p)
+	// constructors: in-module functions returning *parser
+	isCtor := func(fn *ssa.Function) bool {
+		if fn == nil || !p.InModule(fn) || fn.Signature.Results().Len() != 1 {
+			return false
+		}
+		pt, ok := fn.Signature.Results().At(0).Type().(*types.Pointer)
+		return ok && types.Identical(pt.Elem(), pi.T)
+	}
+	n := 0
+	for _, fn := range p.FuncsIn(modPath) {
+		byReader := map[string][]ssa.CallInstruction{}
+		for _, f := range WithClosures(fn) {
+			for _, cl := range Calls(f) {
+				if cal := cl.Common().StaticCallee(); isCtor(cal) && len(cl.Common().Args) > 0 {
+					ro := p.Origin(cl.Common().Args[0])
+					k := ro.String()
+					if ro.Val != nil {
+						k = fmt.Sprintf("%p", stripConv(ro.Val))
+					}
+					byReader[k] = append(byReader[k], cl)
+				}
+			}
+		}
+		for _, cls := range byReader {
+			n++
+			c.Check(len(cls) == 1, FuncName(fn), p.InstrPos(cls[0].(ssa.Instruction)), "one-parser-per-reader", "the reader is wrapped by one parser",
+				fmt.Sprintf("the same reader is wrapped by %d framing parsers (second at %s): bytes the first one buffered beyond the frame it returned are lost to the second, so which frames the session sees depends on how the stream was split into reads", len(cls), p.InstrPos(cls[len(cls)-1].(ssa.Instruction))))
+		}
+	}
+	if n == 0 {
+		c.Violation("", "-", "no-parser-construction", "no function constructs a framing parser")
 	}
 }
